@@ -82,13 +82,16 @@ func TestReplay(t *testing.T) {
 				pos += sz
 			}
 		}
-		for pos < len(b) {
+		for pos < len(b)-48 {
 			sz := 1024
-			if pos+sz > len(b) {
-				sz = len(b) - pos
+			if pos+sz > len(b)-48 {
+				sz = len(b) - 48 - pos
 			}
 			reads = append(reads, b[pos:pos+sz])
 			pos += sz
+		}
+		for ; pos < len(b); pos++ {
+			reads = append(reads, b[pos:pos+1])
 		}
 		got, parked := serveLoop(reads)
 		want, _ := r.Stream.Expect()
